@@ -89,8 +89,7 @@ PROPS = {
         "clause": "NARROW: typing F(A) -> F(B) of functor application as label-array term equalities under the "
                   "documented functor contract (A_F1, A_F2); all glue unwraps discharged; results well-formed",
         "entries": ["strict::functor::traits::", "strict::functor::identity::", "lax::functor::dyn_functor::"],
-        "anchors": ["strict::functor::traits::define_map_arrow", "strict::functor::traits::spider_map_arrow",
-                    "strict::functor::traits::map_half_spider", "strict::functor::traits::to_operations"],
+        "anchors": ["strict::functor::traits::define_map_arrow", "lax::functor::dyn_functor::define_map_arrow"],
         "rules": [], "level": "proof",
     },
     "C14": {
@@ -98,23 +97,21 @@ PROPS = {
                   "adapt/partial_dagger are typed FA●RB -> FB●RA as ordered label-array terms; unwraps discharged",
         "entries": ["strict::functor::optic::", "lax::optic::"],
         "anchors": ["strict::functor::optic::Optic::<F, R, K, O1, A1, O2, A2>::adapt",
-                    "strict::functor::optic::partial_dagger", "strict::functor::optic::interleave_blocks"],
+                    "Functor<K, O1, A1, O2, A2>>::map_operations"],
         "rules": [], "level": "proof",
     },
     "C15": {
         "clause": "NARROW: totality — layer and layered_operations return for every well-formed diagram (every "
                   "panic path infeasible, loop included); result shapes; dependency direction by provenance",
         "entries": ["strict::layer::"],
-        "anchors": ["strict::layer::layer", "strict::layer::layered_operations", "strict::graph::kahn",
-                    "strict::graph::operation_adjacency", "strict::graph::converse",
-                    "strict::graph::sparse_relative_indegree", "strict::graph::dense_relative_indegree"],
+        "anchors": ["strict::layer::layer", "strict::layer::layered_operations"],
         "rules": [], "level": "proof",
     },
     "C16": {
         "clause": "NARROW: eval refuses exactly when layer reports an unvisited operation, otherwise returns "
                   "(no panic) under the documented apply contract; result length |f.t|",
         "entries": ["strict::eval::"],
-        "anchors": ["strict::eval::eval", "strict::eval::eval_order", "strict::layer::layer"],
+        "anchors": ["strict::eval::eval", "strict::layer::layer"],
         "rules": [], "level": "proof",
     },
     "C17": {
@@ -124,7 +121,7 @@ PROPS = {
                     "acyclic::<impl strict::hypergraph::object::Hypergraph<K, O, A>>::is_acyclic",
                     f"{S_H}::<K, O, A>::in_degree", f"{S_H}::<K, O, A>::out_degree"],
         "anchors": [f"{S_OH}::<K, O, A>::is_monogamous", f"{S_H}::<K, O, A>::in_degree", f"{S_H}::<K, O, A>::out_degree",
-                    "strict::graph::node_adjacency", "strict::graph::kahn"],
+                    "::is_acyclic"],
         "rules": [], "level": "proof",
     },
     "C18": {
@@ -161,7 +158,7 @@ PROPS.update({
                     "lax::hypergraph::Hypergraph::<O, A>::to_hypergraph", "lax::open_hypergraph::OpenHypergraph::<O, A>::tensor",
                     "lax::open_hypergraph::OpenHypergraph::<O, A>::identity", "lax::open_hypergraph::OpenHypergraph::<O, A>::spider",
                     "lax::open_hypergraph::OpenHypergraph::<O, A>::singleton", "lax::hypergraph::Hypergraph::<O, A>::coproduct"],
-        "anchors": ["lax_compose", "coproduct_assign", "tensor_assign", "::append", "lax::hypergraph::make_hypergraph",
+        "anchors": ["lax_compose", "coproduct_assign", "tensor_assign", "::append",
                     "lax::open_hypergraph::OpenHypergraph::<O, A>::to_strict"],
         "rules": ["DELEG"], "level": "proof",
     },
@@ -188,8 +185,7 @@ PROPS.update({
                   "failures inside are propagated as None (no panic path); the witness is a well-formed segmented array "
                   "with one segment per input node, over the result's nodes",
         "entries": ["lax::functor::traits::"],
-        "anchors": ["lax::functor::traits::try_define_map_arrow", "lax::functor::traits::map_arrow_witness",
-                    "lax::functor::traits::spider_map_arrow", "lax::functor::traits::map_half_spider"],
+        "anchors": ["lax::functor::traits::try_define_map_arrow", "lax::functor::traits::map_arrow_witness"],
         "rules": [], "level": "proof",
     },
     "C19": {
@@ -199,7 +195,7 @@ PROPS.update({
                   "branch is reached only with uniform labels); no RefCell borrow overlaps another",
         "entries": ["lax::var::"],
         "anchors": ["lax::var::var::Var::<O, A>::new", "lax::var::var::build", "lax::var::operators::operation",
-                    "lax::var::forget::forget", "lax::var::forget::all_elements_equal"],
+                    "lax::var::forget::forget"],
         "rules": ["REFCELL", "FORGET"], "level": "proof",
     },
     "C20": {
